@@ -215,7 +215,9 @@ def run_adiabatic(spec):
             reg = a.active_region
             cpa = float(reg.coolant.heat_capacity)
             H = sum(cpa * float(np.dot(m, t - T0)) for _, m, t in observe.streams(reg))
-            res = abs(H - P) / max(P, 1e-300)
+            # absolute floor: round-off of representing T ~ T0 in the enthalpy flow (a zero-power assembly leaves 1e-16 m cp T0)
+            floor = 1e-13 * cpa * sum(float(np.sum(m)) for _, m, _ in observe.streams(reg)) * T0
+            res = max(abs(H - P) - floor, 0.0) / max(P, 1e-300)
             worst[0] = max(worst[0], res)
             o.check(res <= 1e-9, "adiabatic_assembly_balance", "asm %d: coolant %.8e vs power %.8e" % (k, H, P))
         o.metric("adiabatic_residual_rel", worst[0])
